@@ -272,6 +272,20 @@ CHECKS = {
 NOT_YET = {}
 
 
+CLI_NOTE = (" The command-line tool is an observation point of the correspondence run: annotator.main is run in forked children on "
+            "structure texts x option sets (harness/corr/cli_annotator.py) and what it writes / prints is compared with what the library "
+            "computes for the same file; only outputs this property reads are judged.")
+HISTORY_NOTE = (" Inputs of the correspondence run include call histories (an object asked for other views first, results edited in place by "
+                "the caller, other inputs handled earlier in the same process, forward and reverse order in fresh processes); every "
+                "evaluation of the real code runs in forked workers of harness/core.fork_map (no shared pool state).")
+EXTRA_NOTE = {
+    "C03": CLI_NOTE, "C04": CLI_NOTE + " The stacking list inside extract_base_interactions is compared with find_stackings, also for pairs that are reported as base pairs too.",
+    "C06": CLI_NOTE, "C07": CLI_NOTE, "C11": CLI_NOTE, "C16": CLI_NOTE,
+    "C13": " motif_extractor.main is run under the solver configurations as well; the notation it prints is judged like a returned one.",
+    "C19": " adapter.main is run on structure x FR3D listing x option sets (insertion-code siblings, generated listings); CSV / JSON / BPSEQ files are compared with the import functions' results.",
+}
+
+
 def main():
     props = [json.loads(l) for l in open(os.path.join(VERIF, "properties.jsonl"))]
     ids = [p["id"] for p in props]
@@ -290,7 +304,7 @@ def main():
             "replay_cmd_template": "./check %s --replay {path}" % pid,
             "engine": "lean4-model+correspondence",
             "level_claimed": {"category": c.get("category", "proof"), "text": c["text"], "design_ref": "DESIGN.md section " + c["ref"]},
-            "level_note": COMMON_NOTE + c["note"],
+            "level_note": COMMON_NOTE + c["note"] + EXTRA_NOTE.get(pid, "") + HISTORY_NOTE,
             "technique": c["technique"],
         })
     claimed = {c["property_id"] for c in checks}
